@@ -197,6 +197,40 @@ example :
     allocMapOf (flatten t) "Version" = [] ∧ allocMapOf (flatten t) "id" = [["Header", "Trace"]] := by
   decide
 
+/-- does the struct embed a struct at its top level -/
+def hasTopEmbed : Tree → Bool
+  | .nil => false
+  | .field _ rest => hasTopEmbed rest
+  | .embed _ _ _ _ _ _ => true
+
+theorem genShadow_depth0 (t : Tree) (n : String) : genShadow t 0 n = false := by
+  unfold genShadow shadowOf
+  simp
+
+theorem walk_top_embed (sh : Shadow) (hsh : ∀ n, sh 0 n = false) : ∀ (t : Tree) (inh : Bool), hasTopEmbed t = true →
+    (walk sh true inh 0 t).any (fun f => f.isEmbeded && !f.isShadowed) = true := by
+  intro t
+  induction t with
+  | nil => intro _ h; simp [hasTopEmbed] at h
+  | field f rest ih =>
+    intro inh h
+    simp only [hasTopEmbed] at h
+    simp only [walk, List.any_append, ih inh h, Bool.or_true]
+  | embed n ty p nm body rest _ _ =>
+    intro inh _
+    simp only [walk, List.any_cons, mkEmbed, hsh n, Bool.not_false, Bool.and_self, Bool.true_or]
+
+/-- 946fee5: a type that embeds a struct at its top level always gets its own MarshalJSON / UnmarshalJSON (so that JSON
+    methods promoted from the embedded struct cannot take over) — for every tree, tag case and accessor set -/
+theorem C11_embed_own_json (getset : Bool) (tc : TagCase) (sw : Bool × Bool) (promG promS : List String) (t : Tree)
+    (h : hasTopEmbed t = true) : needJSON getset tc sw promG promS (flatten t) = true := by
+  unfold needJSON
+  rw [flatten_closed]
+  have := walk_top_embed (genShadow t) (genShadow_depth0 t) t false h
+  unfold walkTop
+  rw [this]
+  rfl
+
 /-- finding region F_jsonSkipExported (known_findings.d/C11.json): an exported field tagged `new:"-"` gets no key in the
     generated MarshalJSON (and is not read by UnmarshalJSON), although it is an exported field -/
 theorem C11_F_jsonSkipExported_witness :
